@@ -159,6 +159,16 @@ CHECKS = {
         "Trusted: CPython refcounting makes release deterministic; the twin shares per-widget layout caches' behaviour; plain attribute assignment without a setter (Padding.left) is not a public mutator.",
         "DESIGN.md §4 C06",
     ),
+    "C17": (
+        MC,
+        "bounded-exhaustive enumeration in three parts through the real code: nested markup shapes over unique glyphs x width x wrap x align x encoding judged per displayed cell; every small attribute mapping at each level of AttrMap / AttrWrap / fill_attr_apply chains judged against map composition; every palette entry form x depth x bright-is-bold x registration order drawn by the raw Screen and decoded by the reference terminal",
+        "part 1: ~600/2500 markup shapes (1-3 items, nesting <= 3, narrow/wide/combining/newline/space/empty pieces, tags None/x/y) x widths x 4 wraps x 3 aligns x utf8/euc-jp/iso-8859-1: "
+        "innermost tag per glyph, padding None, no attribute run cutting a character, text intact; part 2: all mappings touching <= 2 keys of {None,x,y,z}: 1 level x 4 focus maps x both "
+        "render orders, all pairs at 2 levels, 30^3 at 3 levels, sibling canvases, direct fill_attr_apply (caller's mapping untouched); part 3: ~400/900 palette entries + aliases + undefined x "
+        "depths 1/16/88/256/2^24 x bright-is-bold x 5 orders of register_palette vs set_terminal_properties.",
+        "Trusted: mc/refs/vt_ref.py SGR decoding; AttrSpec fields (C18); layout structure (C03) for the exact padding judgement on untrimmed lines.",
+        "DESIGN.md §4 C17",
+    ),
 }
 
 PENDING_REASON = "check not built yet in this round (see DESIGN.md Appendix B build order); no claim is made"
